@@ -147,7 +147,7 @@ def map_range(
         raise ValueError("invalid input range")
     if out_max - out_min <= 0.0:
         raise ValueError("invalid output range")
-    if value < in_min or value > in_max:
+    if not in_min <= value <= in_max:  # NaN compares false and is rejected too
         raise ValueError("input value out of range")
     return (value - in_min) * (out_max - out_min) / (in_max - in_min) + out_min
 
